@@ -120,17 +120,30 @@ def refine_coordinatewise(V, stats, h, ev, w, kind):
     pend = None  # (k, y, val)
     d = h.d
 
-    def parallel(a, b):
-        na, nb = np.linalg.norm(a), np.linalg.norm(b)
-        if na == 0 or nb == 0:
+    def same_line(y, base, prev):
+        """Is y on the line through `base` in the direction of (prev - base)?  (A retry of the same
+        1-D update.)  Decided by the residual orthogonal to that direction against rounding noise -
+        an accepted update followed by a *tiny* step in another direction must not be mistaken for it."""
+        if kind == "gibbs":
+            j = np.nonzero(prev != base)[0]
+            if j.size != 1:
+                return True
+            other = np.ones(len(y), dtype=bool)
+            other[j[0]] = False
+            return bool(np.array_equal(y[other], base[other]))
+        a, b = y - base, prev - base
+        nb = float(b @ b)
+        if nb == 0:
             return True
-        return abs(abs(float(a @ b)) / (na * nb) - 1.0) < 1e-9
+        r = a - (float(a @ b) / nb) * b
+        noise = 1e-12 * (float(np.max(np.abs(y))) + float(np.max(np.abs(base))) + float(np.max(np.abs(prev))) + 1e-300)
+        return float(np.max(np.abs(r))) <= noise
 
     for k in posts:
         y, val = ev[k][2], ev[k][3]
         if pend is not None:
             pk, py, pval = pend
-            same_dir = parallel(y - w, py - w) if d > 1 else True
+            same_dir = same_line(y, w, py) if d > 1 else True
             if d == 1 or same_dir:
                 acc = False
             else:
